@@ -23,7 +23,7 @@ def mk(rng, tier):
     if kind == 'shift':
         shape = rand_shape(rng, 2, 3)
         case['x'] = rand_coeffs(rng, (D, P) + shape, -2, 2)
-        case['s'] = rng.randint(-D, D)
+        case['s'] = rng.randint(-2 * D - 2, 2 * D + 2)           # also shifts by more than the number of coefficients
     elif kind == 'symvec':
         N = rng.randint(1, 4)
         x = rand_coeffs(rng, (D, P, N, N), -2, 2)
@@ -130,9 +130,9 @@ def run_one(ctx, case):
         back = y.shift(-s).data
         want = x.copy()
         if s > 0:
-            want[D - s:] = 0
+            want[max(D - s, 0):] = 0
         elif s < 0:
-            want[:-s] = 0
+            want[:min(-s, D)] = 0
         if not np.array_equal(back, want):
             return 'shift-roundtrip: shift(shift(x,%d),%d) is not x on the retained part' % (s, -s)
         if not np.array_equal(u.data, x):
@@ -396,6 +396,18 @@ def run(ctx):
             f = 'exception-%s: %s' % (case['op'], type(ex).__name__ + ':' + str(ex)[:100])
         if f:
             ctx.report(case, 'failure', f)
+    # every shift amount from -(2D+2) to 2D+2 for small D, on every run
+    for D_ in (1, 2, 3):
+        for s_ in range(-2 * D_ - 2, 2 * D_ + 3):
+            case = {'op': 'shift', 'D': D_, 'P': 2, 'x': rand_coeffs(ctx.rng, (D_, 2, 2), -2, 2) + 0.125, 's': s_}
+            ctx.evaluations += 1
+            ctx.count('op=shift-systematic')
+            try:
+                f = run_one(ctx, case)
+            except Exception as ex:
+                f = 'exception-%s: %s' % (case['op'], type(ex).__name__ + ':' + str(ex)[:100])
+            if f:
+                ctx.report(case, 'failure', f)
     # vecsym for every vector length 1..36: a triangular length N(N+1)/2 gives the N x N matrix from which symvec returns the
     # vector unchanged; any other length has no symmetric matrix -- it must be rejected, never silently shortened
     for L in range(1, 37):
